@@ -135,8 +135,7 @@ def _task_streams(task):
                         note="canonical form or written XML of the definition changed after parsing")
         ch = footprint_changes(fp_before, package_footprint())
         if ch:
-            t.violation({"kind": "package-state-changed", "attrs": ch[:4]}, {"via": task["via"]}, observed=ch[:10],
-                        note="module- or class-level state of the package changed while parsing")
+            t.notes.append("package-level state changed while the check ran (not a violation by itself): " + ", ".join(ch[:6]))
     if task["seqs"]:
         t.sample({"stream": list(task["seqs"][-1]), "palette": ["A-clean", "B-clean", "unrecognised", "A-too-long", "A-too-short", "unrecognised-with-a-recognised-APID"], "options": "all 8 combinations"})
     return t
@@ -252,7 +251,7 @@ def _task_interleave(task):
             t.violation({"kind": "definition-modified"}, {"where": "interleavings"}, note="definition changed")
         ch = footprint_changes(fp_before, package_footprint())
         if ch:
-            t.violation({"kind": "package-state-changed", "attrs": ch[:4]}, {"where": "interleavings"}, observed=ch[:10])
+            t.notes.append("package-level state changed while the check ran (not a violation by itself): " + ", ".join(ch[:6]))
     if task["combos"]:
         t.sample({"generators": [specs[i][0] for i in task["combos"][0]], "interleavings": "all lattice paths of next() calls"})
     return t
